@@ -4,7 +4,7 @@ From Coq Require Import List NArith ZArith Bool Lia Permutation Arith.
 From XotV Require Import Model.Base Model.Zipper Model.Access Model.Store Model.Manip Model.Unpretty Model.Interning
                          Model.Fullname Model.Scope Model.NsTools Model.Hist Spec.DocOrder Spec.Paths Spec.Shape Spec.NoAdj
                          Proofs.StoreProofs Proofs.ForestFacts Proofs.ShapeProofs Proofs.KeysProofs Proofs.InvProofs
-                         Proofs.InvSteps Proofs.InvOps Proofs.InvHist Proofs.InvApi Proofs.Canon Proofs.Levels Proofs.NoAdjFacts Proofs.NoAdjOps.
+                         Proofs.InvSteps Proofs.InvOps Proofs.InvHist Proofs.InvApi Proofs.Canon Proofs.Levels Proofs.NoAdjFacts Proofs.NoAdjOps Proofs.UnwrapEffect.
 Import ListNotations.
 Open Scope N_scope.
 
@@ -147,13 +147,13 @@ End Api.
 
 (* ---------- whole histories over every call the harness draws (Model/Hist.v) ---------- *)
 
-Definition plain_top (o : top) : bool := match o with TH (HM o') => plain_op o' | _ => true end.
+Definition plain_top (o : top) : bool := match o with TH (HM o') => plain_op2 o' | _ => true end.
 
 Theorem noadj_tstep nm t st o : Good st -> cons st = true -> noadj st -> plain_top o = true ->
   noadj (snd (fst (tstep nm (t, st) o))) /\ cons (snd (fst (tstep nm (t, st) o))) = true.
 Proof.
   intros G Hc Hna Hp. destruct o as [[o'|n space]|n|n|n order]; cbn [tstep hstep].
-  - cbn [plain_top] in Hp. pose proof (noadj_mstep st o' G Hc Hna Hp) as N. pose proof (cons_mstep st o' Hp Hc) as C.
+  - cbn [plain_top] in Hp. pose proof (noadj_mstep2 st o' G Hc Hna Hp) as N. pose proof (cons_mstep2 st o' Hp Hc) as C.
     destruct (mstep st o') as [st' out]. auto.
   - destruct (rmws space st n) as [st'|] eqn:E; cbn; [eapply noadj_rmws; eauto|auto].
   - destruct (create_missing_prefixes nm t st n) as [t' st'| |] eqn:E; cbn; auto.
